@@ -18,6 +18,14 @@
 (*                      directory which is renamed onto the final path     *)
 (*   policy = "trust"   : a final path that exists is loaded               *)
 (*            "validate": a load that fails counts as a miss               *)
+(* Writing is buffered: Write hands a chunk to the file object (pc.b), the *)
+(* chunk reaches the file only by a Flush (any time) or by Close (which    *)
+(* flushes the rest); a file's content is what has reached it.  RenameAt   *)
+(* says when the temporary file is moved onto the final path: "closed"     *)
+(* (the contract: only after Close) or "written" (implementation-shaped    *)
+(* wrong order: as soon as every chunk was handed to write(), before       *)
+(* Close; later flushes then land in the final path) -- TLC must refute    *)
+(* the latter (cfg _earlyrename).                                          *)
 (* ("direct","trust") is the shape of the pinned commit; it is             *)
 (* model-checked only to exhibit the counterexample.  The real code is     *)
 (* judged against the property (NoRaise, NoRecompute, termination), never  *)
@@ -33,6 +41,9 @@
 (* Emit prints every distinct crash history with the stage of every        *)
 (* worker and the files left behind: these are the crash points the        *)
 (* harness realises against the real parallelise()/scan.steady_state().    *)
+(* What a kill leaves behind is the CONTENT of the files (what reached     *)
+(* them), not what was handed to write(): the harness realises a           *)
+(* "writing" stage by the content, and kills without flushing.             *)
 (***************************************************************************)
 EXTENDS Integers, Sequences, FiniteSets, TLC, Json
 
@@ -42,6 +53,7 @@ CONSTANTS
     L,          \* chunks per result file (write steps)
     Design,     \* "direct" | "temp" | "any" (any: chosen in Init)
     Policy,     \* "trust" | "validate" | "any"
+    RenameAt,   \* "closed" (contract) | "written" (rename before close: wrong order)
     MaxCrash,   \* how many crashes a behaviour may contain
     Fifo,       \* TRUE: keys are handed out in input order (task queue); FALSE: any order
     EmitOn      \* TRUE: record crash snapshots and print them
@@ -49,7 +61,7 @@ CONSTANTS
 Keys    == 1..NKeys
 Workers == 1..W
 Absent  == 0 - 1
-IdlePc  == [k |-> 0, at |-> "idle", b |-> 0]
+IdlePc  == [k |-> 0, at |-> "idle", b |-> 0, mv |-> FALSE]
 
 VARIABLES
     design, policy,
@@ -92,7 +104,7 @@ Take(w, k) ==
     /\ At(w, "idle")
     /\ k \notin taken
     /\ Fifo => \A j \in Keys : j < k => j \in taken
-    /\ pc' = [pc EXCEPT ![w] = [k |-> k, at |-> "taken", b |-> 0]]
+    /\ pc' = [pc EXCEPT ![w] = [k |-> k, at |-> "taken", b |-> 0, mv |-> FALSE]]
     /\ taken' = taken \cup {k}
     /\ fresh' = FALSE
     /\ UNCHANGED <<conf, files, res, computed, status, verify, crashes, snaps>>
@@ -139,25 +151,52 @@ Open(w) ==
     /\ fresh' = FALSE
     /\ UNCHANGED <<conf, taken, res, computed, status, verify, crashes, snaps>>
 
+\* the file the open handle of worker w writes into
+IntoFinal(w) == design = "direct" \/ pc[w].mv
+Content(w) == IF IntoFinal(w) THEN fin[pc[w].k] ELSE tmp[pc[w].k]
+SetContent(w, c) ==
+    IF IntoFinal(w) THEN fin' = [fin EXCEPT ![pc[w].k] = c] /\ tmp' = tmp
+                    ELSE tmp' = [tmp EXCEPT ![pc[w].k] = c] /\ fin' = fin
+
+\* write(): the chunk goes into the buffer of the file object
 Write(w) ==
     /\ At(w, "writing")
     /\ pc[w].b < L
     /\ pc' = [pc EXCEPT ![w].b = @ + 1]
-    /\ IF design = "direct"
-          THEN fin' = [fin EXCEPT ![pc[w].k] = pc[w].b + 1] /\ tmp' = tmp
-          ELSE tmp' = [tmp EXCEPT ![pc[w].k] = pc[w].b + 1] /\ fin' = fin
-    /\ fresh' = FALSE
-    /\ UNCHANGED <<conf, taken, res, computed, status, verify, crashes, snaps>>
-
-Close(w) ==
-    /\ At(w, "writing")
-    /\ pc[w].b = L
-    /\ Goto(w, IF design = "direct" THEN "saved" ELSE "closed")
     /\ fresh' = FALSE
     /\ UNCHANGED <<conf, files, taken, res, computed, status, verify, crashes, snaps>>
 
+\* the buffer spills one chunk into the file (may happen at any time)
+Flush(w) ==
+    /\ At(w, "writing")
+    /\ Content(w) < pc[w].b
+    /\ SetContent(w, Content(w) + 1)
+    /\ fresh' = FALSE
+    /\ UNCHANGED <<conf, pc, taken, res, computed, status, verify, crashes, snaps>>
+
+\* close() flushes whatever is still buffered
+Close(w) ==
+    /\ At(w, "writing")
+    /\ pc[w].b = L
+    /\ (RenameAt = "written" /\ design = "temp") => pc[w].mv     \* the wrong order always renames first
+    /\ SetContent(w, L)
+    /\ Goto(w, IF IntoFinal(w) THEN "saved" ELSE "closed")
+    /\ fresh' = FALSE
+    /\ UNCHANGED <<conf, taken, res, computed, status, verify, crashes, snaps>>
+
+\* wrong order: the temporary file is moved onto the final path while it is still open
+RenameEarly(w) ==
+    /\ RenameAt = "written" /\ design = "temp"
+    /\ At(w, "writing") /\ pc[w].b = L /\ ~pc[w].mv
+    /\ fin' = [fin EXCEPT ![pc[w].k] = tmp[pc[w].k]]
+    /\ tmp' = [tmp EXCEPT ![pc[w].k] = Absent]
+    /\ pc' = [pc EXCEPT ![w].mv = TRUE]
+    /\ fresh' = FALSE
+    /\ UNCHANGED <<conf, taken, res, computed, status, verify, crashes, snaps>>
+
 \* atomic replace of the final path by the temporary file
 Rename(w) ==
+    /\ RenameAt = "closed"
     /\ At(w, "closed")
     /\ fin' = [fin EXCEPT ![pc[w].k] = tmp[pc[w].k]]
     /\ tmp' = [tmp EXCEPT ![pc[w].k] = Absent]
@@ -214,7 +253,7 @@ Crash ==
 
 Stutter == status \in {"end", "raised"} /\ UNCHANGED vars
 
-Tau(w) == Lookup(w) \/ Open(w) \/ Write(w) \/ Close(w) \/ Rename(w) \/ Return(w)
+Tau(w) == Lookup(w) \/ Open(w) \/ Write(w) \/ Flush(w) \/ Close(w) \/ Rename(w) \/ RenameEarly(w) \/ Return(w)
 
 Progress ==
     \/ \E w \in Workers : \/ \E k \in Keys : Take(w, k)
